@@ -79,7 +79,7 @@ void
 libast_set_program_name(const char *progname)
 {
     if (libast_program_name) {
-        if (!strcmp((char *) libast_program_name, progname)) {
+        if (progname && !strcmp((char *) libast_program_name, progname)) {
             return;
         }
         if (strcmp((char *) libast_program_name, PACKAGE)) {
@@ -108,7 +108,7 @@ void
 libast_set_program_version(const char *progversion)
 {
     if (libast_program_version) {
-        if (!strcmp((char *) libast_program_version, progversion)) {
+        if (progversion && !strcmp((char *) libast_program_version, progversion)) {
             return;
         }
         if (strcmp((char *) libast_program_version, VERSION)) {
